@@ -13,7 +13,8 @@ let handle kind a =
       let r = query (n_of_dec a.(0)) (n_of_dec a.(1)) (n_of_dec a.(2)) (n_of_dec a.(3)) (n_of_dec a.(4)) in
       Some (match r with Ok true -> "Ok:1" | Ok false -> "Ok:0" | Err -> "Err" | Panic _ -> "Panic")
   | "rfreq" ->
-      let bs = bytes_of_hex a.(0) @ List.init 16 (fun _ -> n_of_int 0) in
+      let st = List.map n_of_int [0;0;128;0] in
+      let bs = bytes_of_hex a.(0) @ st @ st @ st @ st @ List.init 8 (fun _ -> n_of_int 0) in
       Some (match rfreq bs with Ok _ -> "Ok" | Err -> "Err" | Panic _ -> "Panic")
   | _ -> None
 
